@@ -10,6 +10,7 @@ while IFS=$'\t' read -r patch checks key; do
 done < mutants/expect.tsv
 for d in seeded/*/; do
   id=$(basename $d); prop=${id%%-*}
+  if python3 -c "import json,sys;sys.exit(0 if json.load(open('$d/meta.json')).get('obsolete') else 1)" 2>/dev/null; then echo "SKIPPED $id (obsolete: the tree has changed so that this change no longer breaks the property)"; continue; fi
   extra=$(python3 -c "import json;print(' '.join(json.load(open('$d/meta.json')).get('also_run',[])))" 2>/dev/null)
   out=$(tools/run_mutant.sh $d/patch.diff $prop $extra 2>&1)
   if echo "$out" | grep -q "^VIOLATION"; then echo "CAUGHT  $id  $(echo "$out" | grep '^\s*\[' | head -2 | tr -s ' ' | tr '\n' ' ')"; else echo "MISSED  $id"; fail=1; fi
